@@ -268,8 +268,8 @@ def c03_jobs():
             jobs.append(Job("c03.cpp", "h_reject_small", defs={"CLS": cls, "NB": n}, **common))
             mt, pt = C03_PT[cls]
             jobs.append(Job("c03.cpp", "h_valid_packet", defs={"CLS": cls, "NB": n, "MT": mt, "PT": pt, "FULL": 1}, **common))
-            c2 = dict(common, tier="thorough", sym=common["sym"] + "; declared message length symbolic (0..buffer)")
-            jobs.append(Job("c03.cpp", "h_valid_packet", defs={"CLS": cls, "NB": n, "MT": mt, "PT": pt, "FULL": 0}, **c2))
+            # (a FULL=0 variant with the declared message length symbolic exhausts memory at every size; the message gate with
+            # a symbolic declared length is decided separately by h_packet_gate)
     for g in (-1, 0, 15, 16, 17, 20, 28, 40, 100):
         jobs.append(Job("c03.cpp", "h_packet_gate", defs={"GSZ": g, "CLS": 1, "NB": 8}, unwind=140, tier="quick" if g in (-1, 15, 16, 20, 28) else "thorough", in_max=max(g, 16) + 16, mem_gb=2,
                         mem=True, sym="all 16 message header bytes (declared length over all 65536 values); GSZ=-1: the size argument over all 64-bit values >= 16",
@@ -278,7 +278,7 @@ def c03_jobs():
 
 
 PROPS["C03"] = {"jobs": c03_jobs, "assumptions": COMMON_ASSUME + [
-    "buffer size is a concrete shape parameter (0..header+8, status classes ..header+16 and header+40); the declared message length in the Packet family is symbolic",
+    "buffer size is a concrete shape parameter (0..header+8, status classes ..header+16 and header+40); in the Packet family the declared message length equals the buffer (the gate with a symbolic declared length is h_packet_gate)",
     "the payload's vector is allocated with exactly the buffer size, so CBMC's pointer check on every library dereference decides 'reads only inside'"],
     "level": "bounded symbolic model checking of validator => accessor safety for all buffer contents per size"}
 
